@@ -807,6 +807,22 @@ def disp7(ctx) -> List[Ob]:
                         nd_, n, offending = worst
                         out.append(bad("DISP-7", h.qualname, f"{r.name}: {fld} of {K.name} drawn under: " + " & ".join(sorted(set(offending))), ctx.where(h, n),
                                        f"the label reads {fld} only when {sorted(set(offending))}: a {K.name} failing that test is drawn without its payload"))
+    # a payload accessor that the handlers go through hands out the payload whole
+    for K in universe:
+        for mname, mfn in K.methods.items():
+            if not mname.startswith("get_") or mname == "get_instructions":
+                continue
+            fields_ = {f_.name for f_ in K.fields()}
+            for r_ in [x for x in A.walk_no_nested(mfn.node) if isinstance(x, ast.Return) and x.value is not None]:
+                v_ = r_.value
+                key = f"{K.name}.{mname} returns the payload whole"
+                filt = [c_ for c_ in ast.walk(v_) if isinstance(c_, (ast.ListComp, ast.GeneratorExp, ast.SetComp)) and any(g_.ifs for g_ in c_.generators) and any(isinstance(a_, ast.Attribute) and a_.attr in fields_ and A.unparse(a_.value) == "self" for g_ in c_.generators for a_ in ast.walk(g_.iter))]
+                sliced = [c_ for c_ in ast.walk(v_) if isinstance(c_, ast.Subscript) and isinstance(c_.slice, ast.Slice) and (c_.slice.lower is not None or c_.slice.upper is not None or c_.slice.step is not None) and isinstance(c_.value, ast.Attribute) and c_.value.attr in fields_]
+                called = isinstance(v_, ast.Call) and isinstance(v_.func, ast.Name) and v_.func.id == "filter"
+                if filt or sliced or called:
+                    out.append(bad("DISP-7", mfn.qualname, key, ctx.where(mfn, r_), f"{A.unparse(v_)[:60]} hands out a selection of the payload: the label drawn from it misses the elements that are filtered out (a bare test expression is not an ast.stmt)"))
+                else:
+                    out.append(ok("DISP-7", mfn.qualname, key, ctx.where(mfn, r_), A.unparse(v_)[:40], nontrivial=False))
     # edges
     re_ = base.find_method("render_edges")
     if re_ is None:
@@ -1109,6 +1125,18 @@ def disp8(ctx) -> List[Ob]:
             out.append(bad("DISP-8", mk.qualname, key, ctx.where(mk), f"the reader drops field(s) {sorted(missing_r)} of {K.name} (popped or never passed)"))
         else:
             out.append(ok("DISP-8", td.qualname, key, where, f"written {sorted(wkeys)} / read {sorted(rkeys)} = fields {sorted(own)}"))
+    # (d+) a payload field is written whole: the attribute itself or a full copy, never a selection of its entries
+    for arm in arms:
+        if arm.test is None:
+            continue
+        for fld_, val_ in written_keys(arm.body).items():
+            sel = None
+            for n_ in ast.walk(val_):
+                if isinstance(n_, (ast.DictComp, ast.ListComp, ast.SetComp, ast.GeneratorExp)) and any(g_.ifs for g_ in n_.generators) and any(isinstance(x_, ast.Attribute) and x_.attr == fld_ for g_ in n_.generators for x_ in ast.walk(g_.iter)):
+                    sel = n_
+            if sel is not None:
+                conds_ = [A.unparse(c_) for g_ in sel.generators for c_ in g_.ifs]
+                out.append(bad("DISP-8", td.qualname, f"field {fld_} written whole", ctx.where(td, sel), f"the writer keeps only the entries of {fld_} for which {conds_[0][:50]}: the written table is a selection (an entry for a declared back edge fails a test against the filtered view), the graph read back has a smaller table"))
     # (d'') the writer descends into every region and writes a canonical member list
     for arm in arms:
         if arm.test is not None and "RegionBlock" in _named_classes(arm.test):
@@ -1274,6 +1302,21 @@ def disp9(ctx) -> List[Ob]:
             out.append(ok("DISP-9", mk.qualname, key, ctx.where(mk), f"extract_region sets '{attr}' {what[kind]}, so does the reader"))
         else:
             out.append(bad("DISP-9", mk.qualname, key, ctx.where(mk), f"extract_region maintains the pointer '{attr}' {what[kind]} but the reader never sets it: a graph that was read has stale / string pointers there"))
+    # every pointer fix-up of the reader runs for every region: it sits under type tests only
+    from .ctrl import _guard_conditions as _gc9
+
+    for c_ in A.walk_no_nested(mk.node):
+        if isinstance(c_, ast.Call) and (A.dotted(c_.func) or "") == "object.__setattr__" and len(c_.args) == 3 and isinstance(c_.args[1], ast.Constant):
+            offending = []
+            for t_, p_ in _gc9(mk.node, c_):
+                te_ = ast.parse(t_, mode="eval").body
+                for cj in (te_.values if isinstance(te_, ast.BoolOp) and isinstance(te_.op, ast.And) and p_ else [te_]):
+                    txt = A.unparse(cj)
+                    if "isinstance(" in txt or "type(" in txt or " is None" in txt or " is not None" in txt:
+                        continue
+                    offending.append(A.cond_key(txt, p_))
+            if offending:
+                out.append(bad("DISP-9", mk.qualname, f"fix-up of '{c_.args[1].value}' unconditional: " + A.alpha_key(c_)[:50], ctx.where(mk, c_), f"the pointer '{c_.args[1].value}' is restored only when {sorted(set(offending))}: regions for which that fails keep the throw-away pointer of the reader, a second write differs"))
     return out
 
 
